@@ -19,7 +19,10 @@ LEVEL_NOTE = "single-threaded runtime: a non-atomic read-modify-write without an
 ASSUMPTIONS = ["random: N=400 requests, miss probability < 1e-38 for n<=5; the entropy source is seeded so the outcome is repeatable"]
 
 KEYS = [("request.source.host", "src"), ("request.target.host", "host"), ("request.listener", "listener"),
-        ("`${request.source.host}|${request.target.host}`", "src+host"), ("`k-${request.listener}`", "listener")]
+        ("`${request.source.host}|${request.target.host}`", "src+host"), ("`k-${request.listener}`", "listener"),
+        # the whole target as the key: the same destination must select the same member however the client spelled it
+        # (an address in a CONNECT line or a SOCKS5 address field, or the same characters sent as a name)
+        ("request.target", "target"), ("request.target", "target")]
 
 
 def gen(rng, tier, i):
@@ -64,9 +67,12 @@ def gen(rng, tier, i):
         n += 1
     sc.add_loadbalance("lb", members, a)
     l1 = sc.add_http_listener("l-one")
-    l2 = sc.add_http_listener("l-two")
+    by_target = key is not None and key[1] == "target"
+    l2 = sc.add_socks_listener("l-two") if by_target else sc.add_http_listener("l-two")
     sc.rule("lb")
     mode = rng.choice(["seq", "burst", "mixed"])
+    if by_target:
+        mode = "seq"    # requests are attributed to upstream connections by time: one at a time
     if algo == "random":
         total = 400 if n > 1 else 20
         mode = "burst"
@@ -95,7 +101,21 @@ def gen(rng, tier, i):
             src = rng.choice(srcs)
             host = rng.choice(hosts)
             port = 2000 + idx
-            hs, proto = sc.client_handshake(li, host, port)
+            if by_target:
+                host = rng.choice(["10.9.7.1", "10.9.7.2", "h0.example.sim"])
+                port = rng.choice([80, 443])
+                if li is l2:
+                    form = rng.choice(["5", "5name", "4a"])
+                    if form == "5":
+                        hs, proto = sc.client_handshake(li, host, port, variant="5")
+                    elif form == "5name":
+                        hs = [send(rc.socks5_greeting([0])), op("recv_n", n=2, label="method"), send(rc.socks5_request(1, host, port, force_domain=True)), op("recv_socks5_reply", label="reply")]
+                    else:
+                        hs = [send(bytes([4, 1]) + port.to_bytes(2, "big") + bytes([0, 0, 0, 1]) + b"u\0" + host.encode() + b"\0"), op("recv_n", n=8, label="reply")]
+                else:
+                    hs, proto = sc.client_handshake(li, host, port)
+            else:
+                hs, proto = sc.client_handshake(li, host, port)
             sc.add_client("q%d" % idx, li, hs + [op("recv_eof", timeout_ms=30000, label="eof")], start_ms=t + (rng.choice([0, 0, 1]) if b > 1 else 0), src=src)
             reqs.append({"k": idx, "listener": li["name"], "src": src, "host": host, "port": port, "burst": len(burst_sizes) and burst_sizes.index(b) if False else None, "t": t, "bsize": b})
             idx += 1
@@ -137,10 +157,15 @@ def oracle(plan, out):
             served.setdefault(port, []).append(r["actor"])
     present = set(a["id"] for a in plan["actors"])
     seq = []
+    ups = sorted([(r["t1"], r["actor"]) for r in R.records if r.get("label") == "upreq" and r.get("res") == "ok"])
     for q in meta["reqs"]:
         if "q%d" % q["k"] not in present:
             continue
-        who = served.get(q["port"], [])
+        if meta.get("key") == "target":
+            # one request at a time, 400 ms apart: the upstream connection that arrived in this request's slot
+            who = [a for (t1, a) in ups if q["t"] * 1000 <= t1 < (q["t"] + 400) * 1000]
+        else:
+            who = served.get(q["port"], [])
         if len(who) != 1:
             v("not-exactly-one-member", "request q%d -> %s:%d was served by %s" % (q["k"], q["host"], q["port"], who))
             continue
@@ -159,7 +184,7 @@ def oracle(plan, out):
                     port = int(h.get("target", "").rsplit(":", 1)[1])
                 except (ValueError, IndexError):
                     continue
-                q = [x for x in seq if x["port"] == port]
+                q = [x for x in seq if x["port"] == port] if meta.get("key") != "target" else []   # (ports repeat in by-target plans)
                 if q and h.get("connector") != q[0]["leaf"]:
                     v("recorded-member-differs", "request to port %d used member %s but the record says connector=%s" % (port, q[0]["leaf"], h.get("connector")))
         except ValueError:
@@ -203,7 +228,8 @@ def oracle(plan, out):
                 if sorted(cnt.values()) != [len(sub) // len(inner)] * len(inner):
                     v("rr-unbalanced-total", "%d selections of the nested balancer over its %d members were distributed %s" % (len(sub), len(inner), cnt))
     elif algo == "hash":
-        keyf = {"src": lambda q: q["src"], "host": lambda q: q["host"], "listener": lambda q: q["listener"], "src+host": lambda q: (q["src"], q["host"])}[meta["key"]]
+        keyf = {"src": lambda q: q["src"], "host": lambda q: q["host"], "listener": lambda q: q["listener"], "src+host": lambda q: (q["src"], q["host"]),
+                "target": lambda q: (q["host"], q["port"])}[meta["key"]]
         m = {}
         for q in seq:
             k = keyf(q)
